@@ -44,7 +44,7 @@ def build(debug=False):
         def request(self, next, request):
             if not getattr(request, '_zq_seen', False):      # one request may pass this middleware on several routes
                 request._zq_seen = True
-                IDS.append(getattr(request, 'request_id', None))
+                IDS.append((getattr(request, 'request_id', None), getattr(request, 'request_guid', None)))
             return next(tok=request.args.get('t'), reqid=id(request))
 
     class EpTok(Middleware):
@@ -221,7 +221,31 @@ def steps_alone(app, kind):
     return s.steps[0]
 
 
+_ID_MARK = [0]
+
+
+def check_new_ids(ctx, what, rc):
+    """identifiers given to the requests of the schedule that has just run: each guid is the one its id gives alone, none repeats"""
+    new = IDS[_ID_MARK[0]:]
+    _ID_MARK[0] = len(IDS)
+    try:
+        from clastic.utils import int2hexguid
+    except ImportError:
+        return True
+    for i, g in new:
+        if i is not None and g is not None and int2hexguid(i) != g:
+            ctx.mismatch('request-guid-of-other-request', '%s: request id %r was given guid %s; alone it gets %s' % (what, i, g, int2hexguid(i)), rc)
+            return False
+    gs = [g for _, g in new if g is not None]
+    if len(gs) != len(set(gs)):
+        ctx.mismatch('request-guid-duplicate', '%s: two requests of one schedule share a request_guid: %r' % (what, new), rc)
+        return False
+    return True
+
+
 def check_results(ctx, kinds, results, errors, alone, what, rc):
+    if not check_new_ids(ctx, what, rc):
+        return False
     for i, kind in enumerate(kinds):
         if errors[i] is not None:
             ctx.mismatch('thread-raised', '%s: thread %d (%s) raised %r' % (what, i, kind, errors[i]), rc)
@@ -298,13 +322,31 @@ def run_pairs2(spec, ctx):
 
 
 def _check_ids(ctx):
-    ids = [i for i in IDS if i is not None]
+    from vlib.shard import Violation
+    ids = [i for i, _ in IDS if i is not None]
     if len(ids) != len(set(ids)):
-        from vlib.shard import Violation
         ctx.record(Violation('request-id-duplicate', 'request identifiers repeat: %d requests, %d distinct ids' % (len(ids), len(set(ids))),
                              {'ids': 'duplicate'}), 'ids')
+    # the second identifier the framework assigns (request_guid): unique too, and the one this request's id gives when served alone
+    guids = [g for _, g in IDS if g is not None]
+    if len(guids) != len(set(guids)):
+        dup = sorted(set(g for g in guids if guids.count(g) > 1))[:2]
+        ctx.record(Violation('request-guid-duplicate', 'request_guid values repeat: %d requests, %d distinct guids (e.g. %s given to ids %s)'
+                             % (len(guids), len(set(guids)), dup[0], [i for i, g in IDS if g == dup[0]]), {'ids': 'duplicate-guid'}), 'ids')
+    else:
+        try:
+            from clastic.utils import int2hexguid
+        except ImportError:
+            int2hexguid = None
+        if int2hexguid is not None:
+            bad = [(i, g) for i, g in IDS if i is not None and g is not None and int2hexguid(i) != g]
+            if bad:
+                ctx.record(Violation('request-guid-of-other-request', 'request %r was given guid %s; alone it gets %s'
+                                     % (bad[0][0], bad[0][1], int2hexguid(bad[0][0])), {'ids': 'guid-mismatch'}), 'ids')
     ctx.extra['request_ids_checked'] = len(ids)
+    ctx.extra['request_guids_checked'] = len(guids)
     del IDS[:]
+    _ID_MARK[0] = 0
 
 
 def _dedupe(ctx):
